@@ -1,14 +1,45 @@
-(* Property C10 — MarshalJSON emits valid JSON denoting the same document
-   Statement-level file; see DESIGN.md §6 C10.  Model-level theorems are under
-   proof in Proofs/ (see obligations.json); this file carries the tie
-   obligations and what is proved so far; the property is decided on every run
-   by the correspondence described in DESIGN.md. *)
-From SJ Require Import Model.Base Model.RefTables Spec.Json Model.Tape Model.Iter Model.Serialize Model.FloatFmt Model.Marshal Tie.GoTablesTie Tie.SerializeTie.
+(* Property C10 — MarshalJSON emits valid JSON denoting the same document.
+   Proved on the model: the string and number printers produce text that the
+   specification's recogniser reads back to the same value; non-finite floats
+   are errors.  The composition over the whole marshal loop is decided by the
+   correspondence run (output equal to the modelled MarshalJSON byte for byte,
+   re-parsed, fixed point); K2 (-0.0) is the known exception to the fixed point. *)
+From SJ Require Import Model.Base Model.RefTables Spec.Json Model.Iter Model.FloatFmt Model.Marshal Proofs.NumLex Proofs.NumberFinal
+     Proofs.EscapeProofs Proofs.FloatFmtProofs Tie.GoTablesTie Tie.SerializeTie.
 Open Scope N_scope.
+
+(* a printed string is a JSON string literal denoting exactly the same bytes *)
+Theorem C10_string_roundtrip : forall s rest f,
+  utf8_ok s = true -> (length (escape_bytes s) < f)%nat ->
+  spec_value (S f) (quote_str s ++ rest) = SOk (DStr s, rest).
+Proof. exact spec_value_quote_str. Qed.
+
+(* for arbitrary bytes: the same, or outside the claim (ill-formed UTF-8) — never a different string *)
+Theorem C10_escape_unescape : forall s rest fuel, (length (escape_bytes s) < fuel)%nat ->
+  spec_string fuel (escape_bytes s ++ x22 :: rest) [] = SOk (s, rest) \/
+  spec_string fuel (escape_bytes s ++ x22 :: rest) [] = SOut.
+Proof. exact escape_unescape. Qed.
+
+(* no raw control character ever appears in the output *)
+Theorem C10_no_raw_control_chars : forall s, Forall (fun b => 32 <= b2n b) (escape_bytes s).
+Proof. exact escape_bytes_no_ctrl. Qed.
+
+(* a printed float is a JSON number denoting the identical float64 *)
+Theorem C10_float_roundtrip : forall bits, bits < two64 -> sf_is_finite (sf_of_bits bits) = true ->
+  exists txt l, fmt_float bits = Some txt /\
+    (forall rest, rest_ok rest = true -> lex_number (txt ++ rest) = Some (l, rest)) /\
+    nl_neg l = (two63 <=? bits) /\
+    bits_of_sf (dec_to_float (nl_neg l) (lit_mant l) (lit_e10 l)) = bits.
+Proof. exact fmt_float_roundtrip. Qed.
+
+(* a non-finite float is an error, never output *)
+Theorem C10_nonfinite_is_error : forall bits, fmt_float bits = None <-> sf_is_finite (sf_of_bits bits) = false.
+Proof. exact fmt_float_none_iff. Qed.
+
 Theorem C10_tie_escape_tables :
   tab_diff gen.Tables.gen_shouldEscape shouldEscape_ref 256 = [] /\ tab_diff gen.Tables.gen_valToHex valToHex_ref 16 = [].
 Proof. exact (conj tie_shouldEscape tie_valToHex). Qed.
-(* non-finite floats are an error of the float printer, never output *)
-Example C10_inf_error : fmt_float 9218868437227405312 = None /\ fmt_float 18442240474082181120 = None /\ fmt_float 9221120237041090560 = None.
-Proof. vm_compute. repeat split; reflexivity. Qed.
-Print Assumptions C10_tie_escape_tables.
+
+Print Assumptions C10_string_roundtrip.
+Print Assumptions C10_escape_unescape.
+Print Assumptions C10_float_roundtrip.
